@@ -51,7 +51,7 @@ def check(run):
                                end_flush=rng.random() < 0.8, simple_bp=rng.random() < 0.4, stats_p=0.5)
         sessions.append(s); kinds.append(None)
     # directly built blocks
-    letters = "esrxlpmnat"
+    letters = "esrxlpmnatPANTU"
     for i in range(400 if quick else 10000):
         fp = {"maj": 1, "min": 0}
         bps = [G.gen_bp(rng, simple=rng.random() < 0.5, maxb=5)]
@@ -60,7 +60,7 @@ def check(run):
         line = "exp FP:maj=1,min=0 %s X:fd:n %s D" % (G.bp_token(bps[0]), " ".join("WB:0:" + sp for sp in specs))
         # items e (empty QR) and n (empty MM) are ignored; a block with no item is not written
         odh = bps[0].get("odh", 3)          # the item-level add_address_event_count honours the address-event hint
-        nblocks = sum(1 for sp in specs if any(c in ("srxlpma" if odh & 2 else "srxlpm") for c in sp))
+        nblocks = sum(1 for sp in specs if any(c in ("srxlpmaPANTU" if odh & 2 else "srxlpmPNTU") for c in sp))
         ref = refexp.RefExporter(fp, bps)
         sessions.append((line, ref, [])); kinds.append([nblocks])
     for s_ in refexp.alignment_sweep(rng, range(0, 2101), rotate=True):
